@@ -328,6 +328,15 @@ func init() {
 				}
 				add(c)
 			}
+			// degenerate indexes: no conjunction of any document has an expression (only the match-everything list
+			// exists); only exclude expressions; a single document
+			for _, docs := range [][]eDoc{
+				{{ID: 7, Cons: []eConj{{}}}, {ID: -3, Cons: []eConj{{}, {}}}},
+				{{ID: 7, Cons: []eConj{{{F: 0, Inc: false, V: tvSlice("[]int", tvInt("int", 1))}}}}, {ID: 8, Cons: []eConj{{}}}},
+				{{ID: 9, Cons: []eConj{{{F: 0, Inc: true, V: tvSlice("[]int", tvInt("int", 1))}}}}},
+			} {
+				add(eCase{Kind: kind, Policy: "error", Docs: docs, Queries: []eQuery{{}, {A: []eAssign{{F: 0, V: tvInt("int", 1)}}}, {A: []eAssign{{F: 0, V: tvInt("int", 2)}, {F: 5, V: tvStr("x")}}}}})
+			}
 			for i := 0; i < n; i++ {
 				o.nFields = 1 + r.Intn(5)
 				if i%10 == 9 { // wide: many fields, so that a retrieval sorts and scans 9 and more field cursors
@@ -367,6 +376,22 @@ func init() {
 				}
 				o := &docsetOpts{kind: kind, nFields: 1 + r.Intn(4), maxDocs: 8, multiSat: true, valueShape: intsShape, queryShape: intsShape}
 				add(genDocset(r, o))
+			}
+			// Skip policy: conjunctions that fail to index in front of satisfied ones -- the collector must still get the
+			// positions of the ORIGINAL document
+			for i := 0; i < n/4; i++ {
+				kind := []string{"kgroups", "compact"}[i%2]
+				o := &docsetOpts{kind: kind, nFields: 1 + r.Intn(3), maxDocs: 5, multiSat: true, noPre: true, valueShape: intsShape, queryShape: intsShape}
+				c := genDocset(r, o)
+				c.Policy = "skip"
+				for d := range c.Docs {
+					bad := eConj{{F: r.Intn(o.nFields), Inc: r.Bool(), V: pick(r, []TV{tvBool(true), {T: "other:map"}, tvList(tvInt("int", 1), tvBool(false), tvInt("int", 2))})}}
+					pos := r.Intn(len(c.Docs[d].Cons) + 1)
+					cons := append([]eConj{}, c.Docs[d].Cons[:pos]...)
+					cons = append(cons, bad)
+					c.Docs[d].Cons = append(cons, c.Docs[d].Cons[pos:]...)
+				}
+				add(c)
 			}
 			// pattern fields: collector hits on the posting-list indexes, raw result on the roaring index
 			for i := 0; i < n/2; i++ {
